@@ -82,7 +82,17 @@ func (wk *worker) runOnce(h *Hist) Outcome {
 	obs, late := w.History(h.Cfg, ops)
 	out := Outcome{Obs: obs, Late: late}
 	for _, o := range obs {
-		if o.Slow {
+		// A client timeout that fires on a request that was not made to stall (machine
+		// load) changes what the code under test sees.  It costs the whole client timeout,
+		// so it shows in the duration of the sync: such a history is run again.
+		stalls := 0
+		for _, e := range o.Log {
+			if e.F == "stallhdr" || e.F == "stallbody" {
+				stalls++
+			}
+		}
+		budget := stalls*int(fd.ClientTimeout/time.Millisecond) + 170
+		if o.Slow || (o.Result != "noevent" && o.Millis > budget) {
 			out.Unstable = true
 		}
 	}
@@ -93,7 +103,7 @@ func (wk *worker) runOnce(h *Hist) Outcome {
 // risk the client timeout).
 func (wk *worker) run(h *Hist) Outcome {
 	var out Outcome
-	for try := 1; try <= 3; try++ {
+	for try := 1; try <= 4; try++ {
 		out = wk.runOnce(h)
 		out.Tries = try
 		if !out.Unstable {
@@ -217,6 +227,10 @@ func main() {
 		failedOps, refetched := 0, 0
 		for j, o := range out.Obs {
 			if opFailed(h.Ops[j], o) {
+				if os.Getenv("VERIF_C04_DIAG") != "" && noInjected(o) && h.Ops[j].HookFail < 0 && !h.Ops[j].DiscFail {
+					b, _ := json.Marshal(o)
+					fmt.Fprintf(os.Stderr, "DIAG %s op %d tries %d: %s\n", signature("x", h), j, out.Tries, b)
+				}
 				failedOps++
 			} else {
 				refetched += len(o.Log)
@@ -377,7 +391,7 @@ func coqObs(op fd.Op, o fd.Obs) string {
 	evs := make([]string, len(o.Events))
 	for i, e := range o.Events {
 		if e.Err {
-			evs[i] = "(EvErr " + vlib.CoqNat(e.Cid) + ")"
+			evs[i] = fmt.Sprintf("(EvErr %s %s)", vlib.CoqNat(e.Cid), vlib.CoqNat(e.Count))
 		} else {
 			evs[i] = fmt.Sprintf("(EvOk %s %s)", vlib.CoqNat(e.Cid), vlib.CoqNat(e.Count))
 		}
@@ -416,4 +430,13 @@ func coqCase(h *Hist, out Outcome) string {
 		vlib.CoqBool(np), vlib.CoqBool(rot), vlib.CoqBool(ann),
 		kind, vlib.CoqBool(h.Kind == "legacy"), vlib.CoqList(al),
 		vlib.CoqNat(h.Cfg.Seg), coqNatList(pre), vlib.CoqNat(h.Cfg.Latest0), vlib.CoqList(hist))
+}
+
+func noInjected(o fd.Obs) bool {
+	for _, e := range o.Log {
+		if e.F != "ok" && e.F != "dead" {
+			return false
+		}
+	}
+	return true
 }
